@@ -693,6 +693,29 @@ def check_set_end_point(fx, R, cq, cname, dim, f):
                     ok = sp.simplify(td - r / sp.Abs(d)) == 0 and sp.simplify(tm - (c_sym + want * r / 2 - o_sym) / d) == 0
                 if ok:
                     R.holds('Y5', inst + ':formulas' + tagx, 'tMax = (border - origin)/dir ; tDelta = res/|dir|', fx.rel(f['loc']), 'E-ALG')
+                    continue
+                # table reads the reader leaves uninterpreted (centres[index +- 1], ...): the formula is not comparable symbolically; what IS decidable is the index they are read at
+                und = [a_ for a_ in (tm.atoms(sp.core.function.AppliedUndef) | td.atoms(sp.core.function.AppliedUndef)) if a_ not in funcs]
+                known = {d, c_sym, o_sym} | {a_ for a_ in funcs if isinstance(a_, sp.Symbol)}
+                strange = [y_ for y_ in (tm.free_symbols | td.free_symbols) - known]
+                if und or strange:
+                    oob = None
+                    for a_ in und:
+                        if 'operator[]' in str(a_.func) and len(a_.args) == 2 and isinstance(a_.args[1], sp.Basic):
+                            osy = [y_ for y_ in a_.args[1].free_symbols if 'rayOriginIndexes_' in y_.name]
+                            k_ = sp.simplify(a_.args[1] - osy[0]) if len(osy) == 1 else None
+                            if k_ is not None and k_.is_Integer and k_ != 0:
+                                oob = oob or (a_, int(k_))
+                    guarded = any('rayOriginIndexes_' in y_.name for (cnd_, _p) in extra for y_ in cnd_.free_symbols)
+                    if oob and not guarded:
+                        R.violated('Y5', '%s::setEndPoint:table-read-out-of-range' % cname, 'for a direction component of %s the first crossing is computed from a per-axis table read at the origin cell index %+d (`%s`), '
+                                   'under conditions %s that do not bound that index: a ray whose origin lies in the %s cell of the grid along this axis and whose end point lies in the same cell (both inside the extent, '
+                                   'the direction component is not zero) reads entry %s of the table - outside it, the index is unsigned and wraps - so the first crossing, and with it the order of the cells, comes from '
+                                   'memory that is not the grid' % ('%.3g' % float(val), oob[1], str(oob[0])[:160], [str(x[0]) for x in extra], 'first' if oob[1] < 0 else 'last', '-1' if oob[1] < 0 else 'N'),
+                                   fx.rel(f['loc']), 'E-INT')
+                    else:
+                        R.undecided('Y5', inst + ':formulas' + tagx, 'tMax/tDelta read quantities the reader does not interpret (%s): not compared with (centre + step*res/2 - origin)/direction' % (
+                            ', '.join(str(x_)[:70] for x_ in (und + strange)[:2])))
                 else:
                     R.violated('Y5', '%s::setEndPoint:crossing-parameters' % cname, 'for a direction component of %s and the origin at %s of its cell (conditions %s) tMax = %s, tDelta = %s; the first crossing is '
                                '(centre + step*res/2 - origin)/direction and the increment res/|direction|: every crossing on this axis is then shifted' % (
